@@ -231,6 +231,7 @@ func (p *PathCtx) sample(end PathResult) string {
 func (pr *Program) execute(p *PathCtx, ip *Interp, fn *ssa.Function) (res PathResult) {
 	defer func() {
 		r := recover()
+		ip.shutdown()
 		if r == nil {
 			return
 		}
